@@ -275,12 +275,18 @@ Section SafePitr.
     destruct (cutoff <? _); [apply safe_ret|]. apply IH. lia.
   Qed.
 
+  Lemma new_record_batch_safe data sz : 0 <= sz <= B -> safe B (new_record_batch data sz).
+  Proof.
+    intros H. unfold new_record_batch. destruct (_ <? 0); [apply safe_fail|].
+    apply safe_bind; [apply safe_make; lia|]. intros _ _. apply safe_ret.
+  Qed.
+
   Lemma pitr_truncate_safe batch cutoff : zlen batch <= B -> safe B (pitr_truncate crc batch cutoff).
   Proof.
     intros Hl. pose proof (zlen_nonneg batch). unfold pitr_truncate.
     destruct (zlen batch <? 61); [apply safe_fail|].
     destruct (_ <=? cutoff).
-    { apply safe_bind; [apply safe_make; lia|]. intros _ _. apply safe_ret. }
+    { apply safe_bind; [apply new_record_batch_safe; lia|]. intros b _. apply safe_ret. }
     destruct (cutoff <? _); [apply safe_ret|].
     destruct (negb _); [apply safe_fail|].
     apply safe_bind.
@@ -288,11 +294,11 @@ Section SafePitr.
     intros st _.
     destruct (s_kept st =? 0); [apply safe_ret|].
     destruct (s_kept st =? _).
-    { apply safe_bind; [apply safe_make; lia|]. intros _ _. apply safe_ret. }
+    { apply safe_bind; [apply new_record_batch_safe; lia|]. intros b _. apply safe_ret. }
     pose proof (zlen_take (61 + s_kept_bytes st) batch).
     pose proof (zlen_nonneg (take (61 + s_kept_bytes st) batch)).
     apply safe_bind; [apply safe_make; lia|]. intros _ _.
-    apply safe_bind; [apply safe_make; lia|]. intros _ _. apply safe_ret.
+    apply safe_bind; [apply new_record_batch_safe; lia|]. intros b _. apply safe_ret.
   Qed.
 
   Lemma pitr_loop_safe fuel : forall body cutoff, zlen body <= B -> safe B (pitr_loop crc fuel body cutoff).
@@ -534,15 +540,21 @@ Section FuelPitr.
     destruct (cutoff <? _); [nff|]. apply IH. unfold zlen in *. lia.
   Qed.
 
+  Lemma nf_new_record_batch data sz : nf (new_record_batch data sz).
+  Proof.
+    unfold new_record_batch. destruct (_ <? 0); [nff|].
+    apply nf_bind; [apply nf_make|]. intros; nff.
+  Qed.
+
   Lemma nf_pitr_truncate batch cutoff : nf (pitr_truncate crc batch cutoff).
   Proof.
     unfold pitr_truncate. destruct (_ <? _); [nff|].
-    destruct (_ <=? cutoff). { apply nf_bind; [apply nf_make|]. intros; nff. }
+    destruct (_ <=? cutoff). { apply nf_bind; [apply nf_new_record_batch|]. intros; nff. }
     destruct (cutoff <? _); [nff|]. destruct (negb _); [nff|].
     apply nf_bind; [apply nf_trunc_loop; lia|]. intros st _.
     destruct (_ =? 0); [nff|].
-    destruct (_ =? _). { apply nf_bind; [apply nf_make|]. intros; nff. }
-    apply nf_bind; [apply nf_make|]. intros _ _. apply nf_bind; [apply nf_make|]. intros; nff.
+    destruct (_ =? _). { apply nf_bind; [apply nf_new_record_batch|]. intros; nff. }
+    apply nf_bind; [apply nf_make|]. intros _ _. apply nf_bind; [apply nf_new_record_batch|]. intros; nff.
   Qed.
 
   Lemma nf_pitr_loop fuel : forall body cutoff, (length body < fuel)%nat -> nf (pitr_loop crc fuel body cutoff).
